@@ -1176,7 +1176,7 @@ func vxC07DrawC(t *rapid.T) *vxC07CCase {
 	case "rule":
 		c.Fault.Nth = rapid.IntRange(0, n-1).Draw(t, "nth")
 		c.Fault.Accept = vxC07DrawAccept(t, sizes, hs)
-		c.Fault.Err = rapid.SampledFrom([]string{"reset", "timeout"}).Draw(t, "err")
+		c.Fault.Err = rapid.SampledFrom([]string{"reset", "timeout", "ctxdeadline"}).Draw(t, "err")
 		c.Fault.Close = rapid.Bool().Draw(t, "close")
 	case "stall-deadline":
 		c.WriteTimeoutMS = rapid.IntRange(5, 15).Draw(t, "stall_ms")
